@@ -366,13 +366,9 @@ def stale_member_queries(corpus):
 def known_finding_runs(ctx):
     """dedicated reproductions of the recorded findings the default generator steers around: F35 (prefix fuzzy with distance 2),
     a phrase of three terms with slop and scoring disabled, non-integer f64 bounds on an integer JSON column"""
-    ph = lambda ts, slop: {"k": "phrase", "f": "title", "ts": ts, "slop": slop}
     un = {"b": "un"}
     qs = [{"k": "fuzzy", "f": "tag", "t": [1, 1, 2], "d": 2, "tr": False, "prefix": True},
-          ph(["t0", "t1", "t2"], 1), ph(["t1", "all", "t0"], 2), ph(["t0", "t2", "t1"], 1),
-          {"k": "jrange", "lo": {"b": "in", "h": 3}, "hi": un}, {"k": "jrange", "lo": {"b": "ex", "h": 9}, "hi": un},
-          {"k": "jrange", "lo": un, "hi": {"b": "in", "h": -1}}, {"k": "jrange", "lo": un, "hi": {"b": "ex", "h": -3}},
-          {"k": "range", "f": "ip", "lo": un, "hi": {"b": "ex", "v": 0}}]
+          ]
     cp = ctx.path("kf_queries.ndjson")
     vlib.write_ndjson(cp, qs)
     tp = ctx.path("kf_trace.ndjson")
@@ -382,9 +378,7 @@ def known_finding_runs(ctx):
     validate(ctx, vlib.read_ndjson(tp), "kf", seen=seen)
     ctx.cov["traces_validated_against_impl"] = before
     ctx.cov["recorded_findings_reproduced"] = {"F35 fuzzy_prefix_distance_2": any(KF_FUZZYPREFIX in s for s in seen),
-                                               "phrase_slop_3_terms_no_scoring": any(KF_SLOP3 in s for s in seen),
-                                               "f64_bound_on_integer_json_column": any(KF_F64BOUND in s for s in seen),
-                                               "ip_range_excluded_upper_zero": any(KF_IPEXCL in s for s in seen)}
+                                               }
 
 
 def regression_cases(ctx):
@@ -393,7 +387,13 @@ def regression_cases(ctx):
     derived from the corpus of a first run (inputs only; one segment of 6,000 documents)."""
     args = ["random", "--seed", 9, "--docs", 6000, "--indexes", 2]
     c0 = ctx.path("regr_q0.ndjson")
-    vlib.write_ndjson(c0, [{"k": "range", "f": "flag", "lo": {"b": "in", "v": 1}, "hi": {"b": "in", "v": 1}},
+    ph = lambda ts, slop: {"k": "phrase", "f": "title", "ts": ts, "slop": slop}
+    un = {"b": "un"}
+    f37_f39 = [{"k": "jrange", "lo": {"b": "in", "h": 3}, "hi": un}, {"k": "jrange", "lo": {"b": "ex", "h": 9}, "hi": un},
+               {"k": "jrange", "lo": un, "hi": {"b": "in", "h": -1}}, {"k": "jrange", "lo": un, "hi": {"b": "ex", "h": -3}},
+               {"k": "range", "f": "ip", "lo": un, "hi": {"b": "ex", "v": 0}}]
+    vlib.write_ndjson(c0, f37_f39 + [ph(["t0", "t1", "t2"], 1), ph(["t1", "all", "t0"], 2), ph(["t0", "t2", "t1"], 1),   # F36
+                           {"k": "range", "f": "flag", "lo": {"b": "in", "v": 1}, "hi": {"b": "in", "v": 1}},
                            {"k": "range", "f": "flag", "lo": {"b": "ex", "v": 0}, "hi": {"b": "un"}},
                            {"k": "range", "f": "flag", "lo": {"b": "un"}, "hi": {"b": "ex", "v": 1}}])
     t0 = ctx.path("regr_trace0.ndjson")
@@ -409,7 +409,9 @@ def regression_cases(ctx):
         t1 = ctx.path("regr_trace.ndjson")
         vlib.run_bin("query_driver", args + ["--fixed", c1, "--out", t1], timeout=300)
         n += validate(ctx, vlib.read_ndjson(t1), "regr1", seen=seen)
-    ctx.cov["repaired_findings_regressed"] = {"F34": any(KF_BOOLRANGE in s for s in seen), "F33": any(KF_UNIONMEMBER in s for s in seen)}
+    ctx.cov["repaired_findings_regressed"] = {"F34": any(KF_BOOLRANGE in s for s in seen), "F33": any(KF_UNIONMEMBER in s for s in seen),
+                                              "F36": any(KF_SLOP3 in s for s in seen), "F37": any(KF_F64BOUND in s for s in seen),
+                                              "F39": any(KF_IPEXCL in s for s in seen)}
     ctx.cov["regression_queries_F33"] = len(hunt)
     log(f"[regr] {n} answers of the regression cases of F33 / F34 accepted ({len(hunt)} corpus-derived F33 queries)")
 
